@@ -319,7 +319,7 @@ inline void run_kernel_group_base(const KernelGroup& G, bool thorough, const KFn
       const uint64_t m = sz;
       KernelInfo ki; ki.family = "reim4";
       std::vector<uint64_t> blks;
-      if (m / 4 <= 8 || thorough) for (uint64_t b = 0; b < m / 4; ++b) blks.push_back(b); else blks = {0, 1, m / 8, m / 4 - 1};
+      if (m / 4 <= 8 || (thorough && m <= 1024)) for (uint64_t b = 0; b < m / 4; ++b) blks.push_back(b);  /* large-size layer: four blocks */ else blks = {0, 1, m / 8, m / 4 - 1};
       for (uint64_t blk : blks) {
         for (int av = 0; av < 2; ++av) {
           { ApiCase c; c.id = sfmt("kernel|reim4_extract_1blk_from_reim_%s|m=%llu|blk=%llu", av ? "avx" : "ref", (unsigned long long)m, (unsigned long long)blk);
